@@ -27,12 +27,17 @@ DEADLINE = 120
 
 def configs(n_out, thorough, rng):
     njs = [1, 2, 3, 5, 8, 16, 64]
+    # "every outcome chunk size": also the upper end of the 32-bit parameter (2^32-1 is how "everything in one job" is
+    # spelled; 2^32 - n_out is the largest size for which n_out + size - 1 still fits in 32 bits)
+    huge = [2 ** 32 - 1, 2 ** 32 - n_out, 2 ** 31]
     per = sorted({1, 2, 3, max(1, n_out - 1), n_out, n_out + 3})
-    allc = [(m, nj, pj) for m in ("threading", "openmp") for nj in njs for pj in per]
+    allc = [(m, nj, pj) for m in ("threading", "openmp") for nj in njs for pj in per] + \
+           [(m, nj, pj) for m in ("threading", "openmp") for nj in (1, 3) for pj in huge]
     if thorough:
         return allc
     must = [("threading", 64, 1), ("openmp", 64, 1), ("threading", 1, n_out), ("openmp", 1, n_out),
-            ("threading", 16, n_out + 3), ("openmp", 16, max(1, n_out - 1))]
+            ("threading", 16, n_out + 3), ("openmp", 16, max(1, n_out - 1)),
+            ("openmp", 2, 2 ** 32 - 1), ("openmp", 3, 2 ** 32 - n_out), ("threading", 2, 2 ** 32 - 1)]
     rest = [c for c in allc if c not in must]
     return must + rng.sample(rest, 22)
 
@@ -136,10 +141,19 @@ def run(ctx):
                            outcome_less=False, file_form=True)
     sets.append({"name": "unequal-files", "es": big, "pol": 0, "events_per_file": 2990, "relational": True,
                  "p": {"alpha": Fraction(1, 64), "beta1": Fraction(1, 4), "beta2": Fraction(1, 8), "lam": Fraction(2)}})
+    if ctx.thorough:
+        # more than 2^16 outcomes with one outcome per part: part index * number of outcomes exceeds 32 bits (the part
+        # arithmetic of the OpenMP entry point is done in unsigned int).  Relational: the first configuration is the
+        # reference.
+        many = [[["c%d" % (k % 3)], ["m%d" % (1000 * k + i) for i in range(1000)]] for k in range(66)]
+        sets.append({"name": "many-outcomes", "es": many, "pol": 0, "relational": True,
+                     "p": {"alpha": Fraction(1, 4), "beta1": Fraction(1, 4), "beta2": Fraction(1, 8), "lam": Fraction(1)}})
     cases = []
     for st in sets:
         no, _ = rwlib.label_sets(st["es"])
-        if st["name"] == "unequal-files":
+        if st["name"] == "many-outcomes":
+            cfgs = [("threading", 4, 20000), ("openmp", 4, 1), ("openmp", 8, 3)]
+        elif st["name"] == "unequal-files":
             # the first configuration (one thread, one part) is the reference the others are compared with:
             # exact rational arithmetic over 3000 events is out of reach of the model (denominators of 2^24000)
             cfgs = [("openmp", 1, 12), ("openmp", 8, 10), ("openmp", 16, 10), ("openmp", 16, 11), ("threading", 8, 10),
